@@ -28,7 +28,11 @@ RULE_ADDED = (
               "answered later than the host's time-out "
               ' '
               'Round 8: uiHeartbeat transitions with the first or second re-connection of the d'
-              'ialogue finding no device; device data beginning like key-encoding markers. ')
+              'ialogue finding no device; device data beginning like key-encoding markers. '
+              ' '
+              'Round 9: slow devices - the answers to one command or to all take 1..9 s of virt'
+              "ual time, within the host's 10 s: every successful reply carries its own request"
+              "'s data. ")
 RULE = RULE + " " + RULE_ADDED.strip()
 ASSUMPTIONS = [
     "simulated device + fake HID/TCP transports are trusted; firmware selectors are parsed "
